@@ -83,7 +83,7 @@ InitHist ==
    maxLeaderCommit |-> 0, hsExpPrev |-> [i \in Node |-> NoHS], dlPrev |-> [i \in Node |-> [next |-> 1, inc |-> 0]],
    cfgIdx |-> [i \in Node |-> 0], cfold |-> [upto |-> 0, st |-> EmptyCfg, points |-> <<>>, init |-> FALSE],
    outst |-> <<>>, uncAcc |-> [i \in Node |-> [bytes |-> 0, lastAcc |-> 0, applied |-> 0, valid |-> FALSE, prevBytes |-> 0, prevValid |-> FALSE]],
-   lastSnapFrom |-> <<>>]
+   cnt |-> <<>>]
 
 MapGet(f, k, dflt) == IF k \in DOMAIN f THEN f[k] ELSE dflt
 MapPut(f, k, v) == IF k \in DOMAIN f THEN [f EXCEPT ![k] = v] ELSE f @@ (k :> v)
@@ -226,7 +226,9 @@ HistNext(h, a, i, pre, post, preD, postD) ==
                      IN  [upto |-> postD.snap.index, st |-> st0, points |-> (postD.snap.index :> st0), init |-> TRUE]
                 ELSE h.cfold
       cfold1 == CFoldAdvance(cfold0, gc1)
-  IN  [h EXCEPT !.maxLeaderCommit = maxLC1, !.hsExpPrev = h.hsExp, !.dlPrev = h.dl, !.cfgIdx = cfgIdx1, !.cfold = cfold1,
+      cname == IF a.name = "Deliver" /\ a.keep THEN "Dup" ELSE IF a.name = "CrashInAppend" THEN "Crash" ELSE a.name
+      cnt1 == MapPut(h.cnt, cname, MapGet(h.cnt, cname, 0) + 1)
+  IN  [h EXCEPT !.cnt = cnt1, !.maxLeaderCommit = maxLC1, !.hsExpPrev = h.hsExp, !.dlPrev = h.dl, !.cfgIdx = cfgIdx1, !.cfold = cfold1,
                 !.gc = gc1, !.gcBase = gcBase1, !.dl = dl1, !.leaders = leaders1, !.grants = grants1,
                 !.votesRecv = votesRecv1, !.preRecv = preRecv1, !.hsExp = hsExp1, !.hsStart = hsStart1,
                 !.props = props1, !.propDeliv = propDeliv1, !.reads = reads1, !.maxExposed = maxExp1,
